@@ -267,9 +267,10 @@ def rule_first(ctx: Ctx, rule: str = "C03.first"):
         tr = k.engine_fn(eng, "_trigger")
         seen = False
         for p in ctx.paths(tr, exc_edges="none"):
-            init = [b for b in p.of("branch") if isinstance(b.term, ast.Compare) and
-                    any(isinstance(c, ast.Constant) and c.value == "__initial__" for c in [b.term.left] + b.term.comparators)]
-            if init and init[0].x["taken"] and p.kind == "return":
+            from ..kernel import initial_test
+
+            init = [b for b in p.of("branch") if initial_test(b.term) is not None]
+            if init and (init[0].x["taken"] is initial_test(init[0].term)) and p.kind == "return":
                 seen = True
                 rep.check(show(p.value) == S, rule, tr.loc(),
                           f"{eng.name}: initial activation yields the sentinel, so it never becomes a caller's result", tr.key,
@@ -370,6 +371,8 @@ def rule_release(ctx: Ctx):
     from . import c04
 
     c04.rule_release(ctx, rule="C03.release")
+    # triggers left queued by a failure run in front of the next outermost call, which then returns THEIR result
+    c04.rule_clear(ctx, rule="C03.first")
 
 
 RULES = [rule_put, rule_fifo, rule_elect, rule_rtc, rule_first, rule_nonrtc, rule_guarded_pop, rule_depth, rule_release]
